@@ -41,6 +41,8 @@ def scenarios(tier):
                         if cover == "chromosome-untagged" and (k != 3 or len(set(blocks)) > 1):
                             continue
                         yield {"seed": seed, "types": list(tv), "blocks": list(blocks), "hp": list(hp), "cover": cover}
+                        if cover == "all" and k == 3 and types == type_sets[0]:
+                            yield {"seed": seed, "types": list(tv), "blocks": list(blocks), "hp": list(hp), "cover": cover, "second_sample": True}
 
 
 def build_world(sc):
@@ -272,6 +274,7 @@ def judge(sc):
             if 1 <= r <= 2:
                 variants_of_history.append((keep + fixed_keep, True))
                 variants_of_history.append((keep + fixed_keep, "nops"))
+    second_sample = bool(sc.get("second_sample"))
     for keep, foreign in variants_of_history:
         if True:
             hist = ["phase", "haplotag", f"unphase-all-but-{list(keep)}" + ("-rephased-by-another-source" if foreign is True else "-without-PS-field" if foreign else ""), "haplotagphase"]
@@ -290,6 +293,18 @@ def judge(sc):
                     txt = strip_ps(txt, set(k_ for k_ in keep if rec_pos[k_][0] == "chrA"))
                 with open(inp, "w") as f:
                     f.write(txt)
+            if second_sample:
+                # a second sample column (homozygous everywhere, no reads of its own) behind the target
+                lines_ = []
+                for line in open(inp).read().splitlines():
+                    if line.startswith("#CHROM"):
+                        line += "\tS2"
+                    elif line and not line.startswith("#"):
+                        nf = len(line.split("\t")[8].split(":"))
+                        line += "\t" + ":".join(["1/1"] + ["."] * (nf - 1))
+                    lines_.append(line)
+                with open(inp, "w") as f:
+                    f.write("\n".join(lines_) + "\n")
             trans += 1
             inp_gz = inp + ".gz"
             pysam.tabix_compress(inp, inp_gz, force=True)
@@ -305,6 +320,11 @@ def judge(sc):
             states += 1
             res = synth.parse_vcf(out)
             pin = synth.parse_vcf(inp)
+            if second_sample:
+                for rec, rin in zip(res["records"], pin["records"]):
+                    if rec["calls"][1].get("GT") != rin["calls"][1].get("GT") or synth.decode_phase(rec["calls"][1]):
+                        viols.append(V("other-sample-altered", f"record {rec['pos']}: the homozygous call {rin['calls'][1]} of the second sample came back as {rec['calls'][1]}", hist))
+                        break
             for ri, (rec, rin) in enumerate(zip(res["records"], pin["records"])):
                 g_out, ps_out = rec["calls"][0].get("GT"), rec["calls"][0].get("PS")
                 g_in, ps_in = rin["calls"][0].get("GT"), rin["calls"][0].get("PS")
